@@ -679,7 +679,6 @@ func checkOwnErrorGuard(c *Ctx, r *Report) {
 	}
 }
 
-
 // wrapHelperOperand: cc calls a repo helper func(..., err error, ...) error whose every return is
 // fmt.Errorf("…%w…", …, err, …) of its error parameter; returns the argument passed for that parameter.
 func wrapHelperOperand(cc *ssa.CallCommon) ssa.Value {
